@@ -48,6 +48,8 @@ func hx(s string) string {
 	return hex.EncodeToString([]byte(s))
 }
 
+var emptyRoot, emptyRootInits bool
+
 func writePkg(root string, rel, name string, files [][]string) {
 	dir := filepath.Join(root, rel)
 	os.MkdirAll(dir, 0o755)
@@ -69,7 +71,14 @@ func writePkg(root string, rel, name string, files [][]string) {
 			fmt.Fprintf(&sb, "func use%d_%d() uint64 {\n\treturn %s.%s\n}\n\n", i, j, id, exported(im))
 			_ = base
 		}
-		fmt.Fprintf(&sb, "func F%d() uint64 {\n\treturn %d\n}\n", i, i)
+		if !emptyRoot {
+			fmt.Fprintf(&sb, "func F%d() uint64 {\n\treturn %d\n}\n", i, i)
+		} else if i == 0 && len(imps) == 0 {
+			// a package with nothing in it, or whose last declarations repeat a name (init)
+			if emptyRootInits {
+				sb.WriteString("func init() {\n}\n\nfunc init() {\n}\n")
+			}
+		}
 		os.WriteFile(filepath.Join(dir, fmt.Sprintf("f%d.go", i)), []byte(sb.String()), 0o644)
 	}
 }
@@ -194,6 +203,11 @@ func main() {
 			}
 			sort.Strings(imps) // gofmt order
 			files = append(files, imps)
+		}
+		emptyRoot, emptyRootInits = false, false
+		if r.Intn(8) == 0 {
+			emptyRoot, emptyRootInits = true, r.Bool()
+			files = [][]string{{}}
 		}
 		rootRel := rng.Pick(r, []string{"app", "cmd/my-app", "pkg.v2"})
 		writePkg(root, rootRel, pkgNameOf(rootRel), files)
